@@ -25,6 +25,12 @@ with NaN, negative, tiny negative entries; P in {1800, 3600}; rainfall flag; max
 kernel called with the wrapper's origin/size and with other origins (on a stamp, first stamp, past the
 last stamp, before the first stamp) and sizes (0, 1, periods past the data); malformed stream: decreasing
 stamps, rainfall flag 2 / -1, period 900, fewer than 2 observations, maxgapsec < 3600.
+Glue stream: defaults, positional arguments, numpy scalars, int / float32 value dtypes. Stored-index stream: for every
+unit / zone variant the index as stored (unit, raw int64, UTC offsets from zoneinfo) goes to the model's wrapperIdx.
+History streams: 2-4 calls on ONE Series object (in-place edit of the returned series, in-place / equal-size edits of
+values and index, other period / arguments, copy / deepcopy / pickle) and on ONE set of kernel buffers (stale
+output buffer, in-place edits), every answer judged against the current state; the oracle reads the periods off
+the returned index, so an answer produced without calling the kernel is judged too.
 A case is non-trivial when at least one period is returned non-missing (distinct input).
 """
 import bisect
@@ -362,7 +368,8 @@ def body(ctx):
     lib.c_var2h.argtypes = [ctypes.c_int] * 6 + [ctypes.c_void_p, ctypes.c_void_p, ctypes.c_longlong, ctypes.c_void_p]
     guards = guard_table(C.REPO)
     stats = {"kernel_bit_equal": 0, "kernel_within_tol": 0, "wrapper_bit_equal": 0, "wrapper_within_tol": 0,
-             "rat_cases": 0, "variants": 0, "periods_checked": 0, "periods_nonmissing": 0, "final_period_returned": 0, "malformed_differences": 0}
+             "rat_cases": 0, "variants": 0, "periods_checked": 0, "periods_nonmissing": 0, "final_period_returned": 0, "malformed_differences": 0,
+             "stored_index_cases": 0, "stored_index_skipped": 0, "history_steps": 0}
 
     # ---- the Cython boundary: record the arguments, pad the arrays with a sentinel
     class Proxy:
@@ -389,8 +396,17 @@ def body(ctx):
     proxy = Proxy(dutils.c_hydrodiy_data)
     dutils.c_hydrodiy_data = proxy
 
-    def call_kernel(P, rain, maxgap, hstart, nvalh, secs, vals):
+    def call_kernel(P, rain, maxgap, hstart, nvalh, secs, vals, bufs=None):
+        """bufs = {"ps","pv","hv"}: the SAME arrays as in earlier calls of a history (already holding secs / vals,
+        hvalues[0..nvalh-2] still holding whatever an earlier call left there)"""
         n = len(secs)
+        if bufs is not None:
+            ps, pv, hv = bufs["ps"], bufs["pv"], bufs["hv"]
+            assert len(ps) == n + 1 and len(hv) >= max(nvalh, 0) + 1
+            assert [int(x) for x in ps[:n]] == list(secs)
+            hv[max(nvalh - 1, 0):] = SENT          # the part the kernel is not obliged to write
+            ierr = lib.c_var2h(n, nvalh, P, rain, 0, maxgap, ps.ctypes.data, pv.ctypes.data, hstart, hv.ctypes.data)
+            return ierr, hv[:max(nvalh, 0) + 1].copy()
         ps = np.empty(n + 1, dtype=np.int64)
         ps[:n] = secs
         ps[n] = INT64_MAX
@@ -403,10 +419,10 @@ def body(ctx):
 
     reqs, pend = [], []    # pend: (kind, impl, case, scale)
 
-    def run_kernel_case(case, tag):
+    def run_kernel_case(case, tag, bufs=None):
         secs, vals = case["secs"], dec_vals(case["vals"])
         P, rain, maxgap, hstart, nvalh = case["P"], case["rain"], case["maxgap"], case["hstart"], case["nvalh"]
-        ierr, hv = call_kernel(P, rain, maxgap, hstart, nvalh, secs, vals)
+        ierr, hv = call_kernel(P, rain, maxgap, hstart, nvalh, secs, vals, bufs)
         scale = max([abs(v) for v in vals if not isnan(v)] + [1.0])
         wellformed = (rain in (0, 1) and P in (1800, 3600) and len(secs) >= 2 and maxgap >= 3600
                       and all(a <= b for a, b in zip(secs, secs[1:])) and secs[0] <= hstart)
@@ -480,13 +496,48 @@ def body(ctx):
             idx = idx.tz_localize(tzo)
         return idx
 
-    def call_wrapper(secs, vals, P, rain, maxgap, unit, tz):
-        """-> (canonical result, recorded call or None)"""
-        idx = make_index(secs, unit, tz)
-        se = pd.Series(np.array(vals, dtype=np.float64), index=idx)
+    live = {"r": None, "se": None}
+
+    def utc_offsets(raw, unit, tz):
+        """UTC offset (s) of every stored instant, from the zone database directly (not through pandas)"""
+        if tz is None:
+            return [0] * len(raw)
+        if tz[0] in "+-":
+            sign = 1 if tz[0] == "+" else -1
+            hh, mm = tz[1:].split(":")
+            return [sign * (int(hh) * 3600 + int(mm) * 60)] * len(raw)
+        if tz == "UTC":
+            return [0] * len(raw)
+        import zoneinfo
+        z = zoneinfo.ZoneInfo(tz)
+        per = {"s": 1, "ms": 10 ** 3, "us": 10 ** 6, "ns": 10 ** 9}[unit]
+        epoch = dt.datetime(1970, 1, 1, tzinfo=dt.timezone.utc)
+        return [int((epoch + dt.timedelta(seconds=int(x) // per)).astimezone(z).utcoffset().total_seconds()) for x in raw]
+
+    def call_wrapper(secs, vals, P, rain, maxgap, unit, tz, se=None, style="explicit"):
+        """-> (canonical result, recorded call or None). `se`: an existing Series object (history streams)"""
+        if se is None:
+            idx = make_index(secs, unit, tz)
+            if style == "int_values":
+                se = pd.Series(np.array(vals, dtype=np.int64), index=idx)
+            elif style == "float32_values":
+                se = pd.Series(np.array(vals, dtype=np.float32), index=idx)
+            else:
+                se = pd.Series(np.array(vals, dtype=np.float64), index=idx)
+        live["se"], live["r"] = se, None
         proxy.calls.clear()
         try:
-            r = dutils.var2h(se, nbsec_per_period=P, maxgapsec=maxgap, rainfall=bool(rain))
+            if style == "defaults":
+                r = dutils.var2h(se)
+            elif style == "positional":
+                r = dutils.var2h(se, P, maxgap, bool(rain), False)
+            elif style == "numpy_scalars":
+                r = dutils.var2h(se, nbsec_per_period=np.int64(P), maxgapsec=np.int64(maxgap), rainfall=np.bool_(rain))
+            elif style == "int_flag":
+                r = dutils.var2h(se, nbsec_per_period=P, maxgapsec=float(maxgap), rainfall=int(rain))
+            else:
+                r = dutils.var2h(se, nbsec_per_period=P, maxgapsec=maxgap, rainfall=bool(rain))
+            live["r"] = r
         except Exception as exc:      # whatever class the wrapper raises (ValueError, RuntimeError, TypeError, ...)
             msg = str(exc)
             m = re.search(r"\b(1[0-9]{5})\b", msg)
@@ -510,20 +561,36 @@ def body(ctx):
         except Exception as exc:      # a result that is not a float series on a DatetimeIndex
             return ("err", "bad-result:" + type(exc).__name__), rec
 
-    def run_wrapper_case(case, tag):
+    def run_wrapper_case(case, tag, se=None):
         secs, vals = case["secs"], dec_vals(case["vals"])
         P, rain, maxgap = case["P"], case["rain"], case["maxgap"]
         variants = [tuple(v) for v in case["variants"]]
+        style = case.get("style", "explicit")
         scale = max([abs(v) for v in vals if not isnan(v)] + [1.0])
         wellformed = (P in (1800, 3600) and len(secs) >= 2 and maxgap >= 3600
                       and all(a <= b for a, b in zip(secs, secs[1:])))
         ref = None
         nontrivial = False
         for vi, (unit, tz) in enumerate(variants):
-            res, rec = call_wrapper(secs, vals, P, rain, maxgap, unit, tz)
+            res, rec = call_wrapper(secs, vals, P, rain, maxgap, unit, tz, se=(se if vi == 0 else None), style=style)
             stats["variants"] += 1
             vcase = {**case, "unit": unit, "tz": tz}
             vcase.pop("variants", None)
+            # the index as stored (raw int64 count of its unit, UTC instant when tz-aware) + the zone's UTC offsets
+            # -> the model's own conversion to wall-clock seconds, origin, size and values
+            if wellformed and (vi > 0 or se is not None or style != "explicit"):
+                try:
+                    sidx = live["se"].index
+                    raw = [int(x) for x in sidx.asi8]
+                    offs = utc_offsets(raw, sidx.unit, tz)
+                    reqs.append(f"wrapperidx {P} {rain} {maxgap} {C.f2h(EPS)} {sidx.unit} {C.ilist(raw)} {C.ilist(offs)} "
+                                f"{C.flist(vals)}")
+                    impl_i = ("err " + res[1]) if res[0] == "err" else (rec["hstartsec"] if rec else None, res[1])
+                    pend.append(("wrapperidx", impl_i, {**vcase, "_wellformed": True,
+                                                        "_varsec": rec["varsec"] if rec else None}, scale))
+                    stats["stored_index_cases"] += 1
+                except Exception as exc:       # an index pandas cannot describe this way: nothing to compare
+                    stats["stored_index_skipped"] += 1
             if vi == 0:
                 ref = res
                 # correspondence on the first variant (the others must equal it, see below)
@@ -533,20 +600,31 @@ def body(ctx):
                         ctx.finding("var2h/error_on_sorted_input", "dutils.var2h raises on a non-decreasing series",
                                     {**vcase, "error": res[1]})
                 else:
-                    hstart = rec["hstartsec"] if rec else None
+                    # the periods are read off the RETURNED index (the oracle must not depend on the kernel having
+                    # been called: a cached or recycled answer is judged against the current series all the same)
+                    hstart = rec["hstartsec"] if rec else (res[2][0] if res[2] else None)
                     impl = (hstart, res[1])
                     if wellformed and rec is not None:
                         if rec["varsec"] != secs:
                             ctx.finding(f"var2h/epoch_seconds_wrong/unit={unit}",
                                         "the seconds passed to the kernel are not the wall-clock epoch seconds of the index",
                                         {**vcase, "passed": rec["varsec"][:5]})
-                        want_idx = [rec["hstartsec"] + i * P for i in range(len(res[1]))]
-                        if res[2] != want_idx or not res[3] or len(res[1]) != rec["nvalh"]:
+                        if len(res[1]) != rec["nvalh"] or (res[2] and res[2][0] != rec["hstartsec"]):
+                            ctx.finding("var2h/index_not_periods", "the returned series is not labelled from the origin "
+                                        "handed to the kernel / has another length", {**vcase, "index": res[2][:5],
+                                                                                       "origin": rec["hstartsec"]})
+                    if wellformed and res[1]:
+                        h0 = res[2][0]
+                        want_idx = [h0 + i * P for i in range(len(res[1]))]
+                        if res[2] != want_idx or not res[3]:
                             ctx.finding("var2h/index_not_periods", "the returned index is not origin + i*period",
-                                        {**vcase, "index": res[2][:5], "origin": rec["hstartsec"]})
+                                        {**vcase, "index": res[2][:5], "origin": h0})
+                        if not secs[0] <= h0:
+                            ctx.finding("var2h/origin_before_data", "the first returned period starts before the first "
+                                        "observation", {**vcase, "origin": h0})
                         ex = Exact(secs, vals, P, rain, maxgap)
                         outs = res[1]
-                        nontrivial = check_periods(ctx, "var2h", vcase, ex, rec["hstartsec"], outs, tag,
+                        nontrivial = check_periods(ctx, "var2h", vcase, ex, h0, outs, tag,
                                                    final=len(outs) - 1)
                         stats["periods_checked"] += len(outs)
                         stats["periods_nonmissing"] += sum(1 for x in outs if not isnan(x))
@@ -692,6 +770,168 @@ def body(ctx):
         run_wrapper_case({**base, "kind": "wrapper", "variants": [("ns", None), (rng.choice(UNITS), tzname), ("us", "UTC")]},
                          "dst_spring_forward")
 
+    # ---------------- glue: defaults, positional arguments, numpy scalars, value dtypes
+    for it in range(ctx.scale(150, 1500)):
+        style = rng.choice(["defaults", "positional", "numpy_scalars", "int_flag", "int_values", "float32_values"])
+        maxgap = 432000 if style == "defaults" else rng.choice([3600, 7200, 86400, 432000])
+        secs, skind, off = gen_secs(rng, maxgap)
+        if secs[-1] - secs[0] > 3000 * 1800:
+            continue
+        vals, vkind = gen_vals(rng, len(secs))
+        if style == "int_values":
+            vals = [float(rng.randint(-2, 30)) for _ in secs]
+        elif style == "float32_values":
+            vals = [float(np.float32(v)) for v in vals]
+        P = 3600 if style == "defaults" else rng.choice([1800, 3600])
+        rain = 0 if style == "defaults" else rng.choice([0, 1])
+        run_wrapper_case({"secs": secs, "vals": enc_vals(vals), "P": P, "rain": rain, "maxgap": maxgap, "style": style,
+                          "gen": f"glue/{style}/{skind}", "kind": "wrapper",
+                          "variants": [(rng.choice(UNITS), rng.choice(FIXED_TZ))]}, "glue/" + style)
+
+    # ---------------- histories on ONE Series object / ONE set of kernel buffers: call -> edit -> call again
+    import copy as _copy
+    import pickle as _pickle
+
+    def edit_values(vals):
+        """equal-size in-place edit of some values (stays inside the quantifier: finite or NaN)"""
+        n = len(vals)
+        ks = sorted(set(rng.randrange(n) for _ in range(rng.randint(1, max(1, n // 3)))))
+        return [(k, rng.choice([float("nan"), -1.0, 0.0, rng.uniform(0, 50), vals[k] + 1.0 if not isnan(vals[k]) else 2.0]))
+                for k in ks]
+
+    def edit_secs(secs, maxgap):
+        """equal-size replacement of the stamps: shift, re-space, or move one stamp (kept non-decreasing)"""
+        how = rng.choice(["shift", "shift_hour", "respace", "move_one"])
+        if how == "shift":
+            d = rng.choice([1, 17, 600, 1799, 1800, 1801, -1, -600])
+            return [t + d for t in secs]
+        if how == "shift_hour":
+            d = 3600 * rng.randint(1, 30)
+            return [t + d for t in secs]
+        if how == "respace":
+            new, _, _ = gen_secs(rng, maxgap, n=len(secs))
+            return new[:len(secs)] if len(new) >= len(secs) else secs
+        k = rng.randrange(len(secs))
+        lo = secs[k - 1] if k > 0 else secs[0] - 3000
+        hi = secs[k + 1] if k + 1 < len(secs) else secs[-1] + 3000
+        out = secs[:]
+        out[k] = rng.randint(lo, hi)
+        return out
+
+    for it in range(ctx.scale(250, 2500)):
+        maxgap = rng.choice([3600, 7200, 86400, 432000])
+        secs, skind, off = gen_secs(rng, maxgap, n=rng.choice([3, 4, 6, 9, 15, 30]))
+        if secs[-1] - secs[0] > 2000 * 1800:
+            continue
+        vals, vkind = gen_vals(rng, len(secs))
+        P, rain = rng.choice([1800, 3600]), rng.choice([0, 0, 1])
+        unit, tz = rng.choice(UNITS), rng.choice(FIXED_TZ)
+        se = pd.Series(np.array(vals, dtype=np.float64), index=make_index(secs, unit, tz))
+        trail = []
+        for step in range(rng.randint(2, 4)):
+            if step > 0:
+                act = rng.choice(["same", "edit_result", "edit_result", "edit_input", "edit_input", "reassign_index",
+                                  "other_period", "other_args", "copy", "deepcopy", "pickle", "reassign_values"])
+                trail.append(act)
+                if act == "edit_result" and live["r"] is not None and len(live["r"]) > 0:
+                    r = live["r"]
+                    try:
+                        r.iloc[:] = rng.choice([0.0, -5.0, 1e6])
+                    except Exception:
+                        pass
+                    try:
+                        arr = r.values
+                        arr.flags.writeable = True
+                        arr[:] = 7777.0
+                    except Exception:
+                        pass
+                    try:
+                        r.index.values.flags.writeable = True
+                        r.index.values[:] = r.index.values[::-1]
+                    except Exception:
+                        pass
+                elif act == "edit_input":
+                    for k, v in edit_values(vals):
+                        se.iloc[k] = v
+                        vals[k] = v
+                elif act == "reassign_values":
+                    nv, _ = gen_vals(rng, len(secs))
+                    se[:] = np.array(nv, dtype=np.float64)
+                    vals = list(nv)
+                elif act == "reassign_index":
+                    secs = edit_secs(secs, maxgap)
+                    if rng.random() < 0.5:
+                        unit, tz = rng.choice(UNITS), rng.choice(FIXED_TZ)
+                    se.index = make_index(secs, unit, tz)
+                elif act == "other_period":
+                    P = 5400 - P
+                elif act == "other_args":
+                    rain = 1 - rain if rng.random() < 0.6 else rain
+                    maxgap = rng.choice([3600, 7200, 86400, 432000])
+                elif act == "copy":
+                    se = se.copy()
+                elif act == "deepcopy":
+                    se = _copy.deepcopy(se)
+                elif act == "pickle":
+                    se = _pickle.loads(_pickle.dumps(se))
+            if secs[-1] - secs[0] > 2000 * 1800:
+                break
+            run_wrapper_case({"secs": list(secs), "vals": enc_vals(vals), "P": P, "rain": rain, "maxgap": maxgap,
+                              "kind": "wrapper", "variants": [(unit, tz)],
+                              "gen": f"history/{skind}/" + ">".join(trail)}, "history", se=se)
+            stats["history_steps"] += 1
+
+    for it in range(ctx.scale(250, 2500)):
+        maxgap = rng.choice([3600, 7200, 86400, 432000])
+        secs, skind, off = gen_secs(rng, maxgap, n=rng.choice([2, 3, 5, 8, 14, 30]))
+        if secs[-1] - secs[0] > 2000 * 1800:
+            continue
+        n = len(secs)
+        vals, vkind = gen_vals(rng, n)
+        P, rain = rng.choice([1800, 3600]), rng.choice([0, 0, 1])
+        cap = (secs[-1] - secs[0]) // 1800 + 80
+        bufs = {"ps": np.empty(n + 1, dtype=np.int64), "pv": np.empty(n + 1, dtype=np.float64),
+                "hv": np.full(cap + 2, 4321.0, dtype=np.float64)}
+        bufs["ps"][:n], bufs["ps"][n] = secs, INT64_MAX
+        bufs["pv"][:n], bufs["pv"][n] = vals, np.nan
+        hs = origin_of(secs[0])
+        nv = int((secs[-1] - secs[0]) / P)
+        trail = []
+        for step in range(rng.randint(2, 4)):
+            if step > 0:
+                act = rng.choice(["same", "edit_values", "edit_values", "edit_secs", "other_period", "other_origin",
+                                  "other_size", "other_args", "scribble_output"])
+                trail.append(act)
+                if act == "edit_values":
+                    for k, v in edit_values(vals):
+                        bufs["pv"][k] = v
+                        vals[k] = v
+                elif act == "edit_secs":
+                    secs = edit_secs(secs, maxgap)
+                    bufs["ps"][:n] = secs
+                    if secs[0] > hs or rng.random() < 0.5:
+                        hs = origin_of(secs[0])
+                elif act == "other_period":
+                    P = 5400 - P
+                elif act == "other_origin":
+                    hs = rng.choice([secs[0], rng.choice(secs), secs[0] + rng.randint(0, max(secs[-1] - secs[0], 1)),
+                                     origin_of(secs[0])])
+                elif act == "other_size":
+                    nfit = max((secs[-1] - hs) // P, 0)
+                    nv = int(rng.choice([0, 1, 2, nfit, nfit + 1, nfit + 3, max(nfit - 1, 0)]))
+                elif act == "other_args":
+                    rain = 1 - rain if rng.random() < 0.6 else rain
+                    maxgap = rng.choice([3600, 7200, 86400, 432000])
+                elif act == "scribble_output":
+                    bufs["hv"][:] = rng.choice([0.0, -3.0, 99.0])
+            nv = min(nv, cap)
+            if secs[0] > hs:
+                hs = origin_of(secs[0])
+            run_kernel_case({"secs": list(secs), "vals": enc_vals(vals), "P": P, "rain": rain, "maxgap": maxgap,
+                             "kind": "kernel", "hstart": int(hs), "nvalh": int(nv),
+                             "gen": f"history/{skind}/" + ">".join(trail)}, "history", bufs=bufs)
+            stats["history_steps"] += 1
+
     # ---------------- malformed stream
     for it in range(ctx.scale(300, 3000)):
         maxgap = rng.choice([3600, 86400])
@@ -747,6 +987,16 @@ def body(ctx):
                         (t == "nan") == isnan(a) and (t == "nan" or
                                                       abs(Fraction(a) - Fraction(t)) <= 1e-12 * len(case["secs"]) * (scale + abs(a)))
                         for t, a in zip(toks, impl))
+        elif kind == "wrapperidx":
+            parts = rep.split(" ")
+            msecs = [int(t) for t in C.parse_list(parts[-1])] if len(parts) >= 3 else None
+            secs_ok = case.get("_varsec") is None or msecs == case["_varsec"]
+            if isinstance(impl, str):
+                ok = secs_ok and " ".join(parts[:2]) == impl
+            elif parts[0] == "ok" and len(parts) == 4:
+                mv = [C.h2f(t) for t in C.parse_list(parts[2])]
+                ok, bit = compare_lists(impl[1], mv, scale)
+                ok = ok and secs_ok and impl[0] is not None and int(parts[1]) == impl[0]
         else:
             if isinstance(impl, str):
                 ok = rep == impl
@@ -764,7 +1014,7 @@ def body(ctx):
             continue
         if not ok:
             shown = impl if isinstance(impl, str) else (
-                fmt_out(impl) if kind != "wrapper" else f"ok {impl[0]} " + fmt_out(impl[1])[3:])
+                fmt_out(impl) if kind not in ("wrapper", "wrapperidx") else f"ok {impl[0]} " + fmt_out(impl[1])[3:])
             ctx.disagree(f"C14/{kind}: implementation and model differ",
                          {"request": req[:3000], "impl": shown[:3000], "model": rep[:3000], "gen": case.get("gen"),
                           "unit": case.get("unit"), "tz": case.get("tz")})
@@ -785,8 +1035,7 @@ def body(ctx):
 
 def main(tier, replay=None):
     return C.run_check(PID, tier, body, needs_native=True, replay=replay,
-                       level_partial=["independence of the index's storage resolution and time zone: established by the "
-                                      "oracle on the real code only (pandas index handling is external to the model)"],
-                       trusted=["pandas DatetimeIndex / tz_localize / as_unit / date_range, numpy datetime64 casts (external: "
-                                "'epoch seconds of stamp i' is a parameter of the model)",
+                       trusted=["pandas DatetimeIndex storage (asi8, unit), zone offsets (zoneinfo), date_range, numpy datetime64 "
+                                "casts: external — raw count and UTC offset of stamp i are parameters of the model (wrapperIdx), "
+                                "its wall-clock seconds are compared with those the real wrapper hands to the kernel",
                                 "gcc -O1 -ffp-contract=off build of c_var2h.c; ctypes call convention"])
